@@ -10,6 +10,7 @@ import (
 	"encoding/base64"
 	"encoding/json"
 	"fmt"
+	"github.com/hashicorp/go-kms-wrapping/v2/aead"
 	"net"
 	"sort"
 	"strings"
@@ -36,7 +37,11 @@ type kase struct {
 	After   string   `json:"after,omitempty"` // drop: write | read
 	K       int      `json:"k,omitempty"`
 	BaseTLS bool     `json:"base_tls"`
-	Seed    int64    `json:"seed"`
+	// NilWrapper: the listener's options carry a registration wrapper that is
+	// a nil pointer of a concrete type (a configuration slip the library
+	// tolerates: it treats it as "no wrapper")
+	NilWrapper bool  `json:"typed_nil_registration_wrapper,omitempty"`
+	Seed       int64 `json:"seed"`
 }
 
 type world struct {
@@ -219,6 +224,7 @@ func (w *world) cases(c *engine.Ctx, emit func(kase)) {
 			info.WrappedRegistrationInfo = wi
 			b, _ := proto.Marshal(harness.SignedRequest(info, kp))
 			emit(kase{Kind: "alpn", Protos: chunks(prefixes["fetch"], b), Desc: "well-signed fetch request with nonce " + name + " and " + wn + " registration info"})
+			emit(kase{Kind: "alpn", Protos: chunks(prefixes["fetch"], b), Desc: "well-signed fetch request with nonce " + name + " and " + wn + " registration info", NilWrapper: true})
 		}
 		r2 := harness.SignedRequest(harness.Info(kp, ep, n), kp)
 		r2.RewrappedWrappingRegistrationFlowInfo, r2.RewrappingKeyId = []byte{0x0a, 0x01, 0x00}, w.honest.K.KeyId
@@ -441,6 +447,10 @@ func (w *world) badClient(k kase, addr string) {
 
 func (w *world) one(k kase, r *engine.Report) (string, string) {
 	cfg := harness.ServerConfig{Storage: w.st.Clone(), Options: w.opts}
+	if k.NilWrapper {
+		var none *aead.Wrapper
+		cfg.Options = []nodeenrollment.Option{nodeenrollment.WithRegistrationWrapper(none)}
+	}
 	if k.BaseTLS {
 		cfg.BaseTLS = w.baseTLS
 	}
@@ -465,7 +475,7 @@ func (w *world) one(k kase, r *engine.Report) (string, string) {
 		r.InfraError(err.Error())
 		return "", ""
 	}
-	desc := fmt.Sprintf("%s case %q (base TLS configuration: %v)", k.Kind, k.Desc, k.BaseTLS)
+	desc := fmt.Sprintf("%s case %q (base TLS configuration: %v, typed-nil registration wrapper: %v)", k.Kind, k.Desc, k.BaseTLS, k.NilWrapper)
 	authed := 0
 	for i, a := range rs {
 		if a.Panic != "" {
@@ -554,7 +564,7 @@ func replay(c *engine.Ctx, raw json.RawMessage) (string, bool) {
 	w := newWorld(k.Seed)
 	if k.Kind == "alpn" && k.Protos == nil {
 		w.cases(&engine.Ctx{Tier: "thorough", Seed: k.Seed}, func(x kase) {
-			if x.Desc == k.Desc && x.BaseTLS == k.BaseTLS {
+			if x.Desc == k.Desc && x.BaseTLS == k.BaseTLS && x.NilWrapper == k.NilWrapper {
 				k.Protos = x.Protos
 			}
 		})
@@ -570,7 +580,7 @@ func init() {
 	engine.Register(&engine.CheckDef{
 		ID:    "C14",
 		Level: "fault_enumeration",
-		Rule: "against the real InterceptingListener on a loopback socket, with and without an application base TLS configuration: ClientHello ALPN lists of 1-3 entries over the three library prefixes x suffixes {empty, shorter than the chunk header, header only, non-base64, random base64, three-digit header, hyphens, long}, honest fetch and authentication requests truncated at every length (quick: every third), padded to 20 KiB (>100 chunks), duplicated, with missing / reordered chunks, mixed prefixes; well-signed fetch requests whose nonce is an unknown / consumed / field-less activation token or has an odd size, alone and with garbage, short, foreign-sealed or malformed re-wrapped registration info; raw non-TLS byte strings (empty, HTTP, TLS record headers with truncated / oversized bodies, 1..64 seeded bytes); honest fetch and authentication handshakes dropped after the k-th client write / read for k = 0..12, and with the server's own k-th write / read on the connection failing with a reset for k = 1..10 (including the close-notify after a handled fetch); every case is followed by an honest Dial on the same listener; " +
+		Rule: "against the real InterceptingListener on a loopback socket, with and without an application base TLS configuration: ClientHello ALPN lists of 1-3 entries over the three library prefixes x suffixes {empty, shorter than the chunk header, header only, non-base64, random base64, three-digit header, hyphens, long}, honest fetch and authentication requests truncated at every length (quick: every third), padded to 20 KiB (>100 chunks), duplicated, with missing / reordered chunks, mixed prefixes; well-signed fetch requests whose nonce is an unknown / consumed / field-less activation token or has an odd size, alone and with garbage, short, foreign-sealed or malformed re-wrapped registration info (the sealed-info ones also against a listener whose registration wrapper option is a nil pointer of a concrete type); raw non-TLS byte strings (empty, HTTP, TLS record headers with truncated / oversized bodies, 1..64 seeded bytes); honest fetch and authentication handshakes dropped after the k-th client write / read for k = 0..12, and with the server's own k-th write / read on the connection failing with a reset for k = 1..10 (including the close-notify after a handled fetch); every case is followed by an honest Dial on the same listener; " +
 			"distinct_nontrivial counts cases (distinct by construction) after which the follow-up dial was attempted and judged",
 		Assumptions: []string{"peers that stall without closing are outside the quantifier (Accept handshakes synchronously by design)", "the application-supplied registration wrapper is wrapped in a length guard: robustness of go-kms-wrapping's aead wrapper against short ciphertexts is not the library's"},
 		Shards:      func(c *engine.Ctx) int { return 16 },
